@@ -442,6 +442,19 @@ MUTANTS += [
 ]
 
 MUTANTS += [
+    # the verified schema (getters, derived getters, the two helpers every axis / point computation goes through)
+    m("schema-region-pmin", ["C01", "C07", "C12", "C13", "C14"], R, "        return self._pmin\n", "        return self._pmax\n"),
+    m("schema-mesh-n-reversed", ["C01", "C04", "C06", "C13"], M, "        return self._n\n", "        return self._n[::-1]\n"),
+    m("schema-field-valid-negated", ["C08", "C03", "C16"], F, "        return self._valid\n", "        return ~self._valid\n"),
+    m("schema-field-array-copy", ["C02", "C03", "C06"], F, "        return self._array\n", "        return self._array * 1\n"),
+    m("schema-dim2index-from-end", ["C04", "C06", "C12"], R, "            return self.dims.index(dim)\n", "            return len(self.dims) - 1 - self.dims.index(dim)\n"),
+    m("schema-array2tuple-reversed", ["C01", "C02"], U, "return array.item() if array.size == 1 else tuple(array.tolist())", "return tuple(array.tolist())[::-1]"),
+    m("schema-centre-is-pmin", ["C12", "C13"], R, "        return self.center\n", "        return self.pmin\n"),
+    # Newell's auxiliary functions
+    m("c19-newell-f-sign", ["C19"], T, "        + 1 / 6 * (2 * x2 - y2 - z2) * np.sqrt(x2 + y2 + z2)\n", "        + 1 / 6 * (2 * x2 - y2 + z2) * np.sqrt(x2 + y2 + z2)\n"),
+    m("c19-newell-g-third", ["C19"], T, "        - x * y * np.sqrt(x2 + y2 + z2) / 3\n", "        - x * y * np.sqrt(x2 + y2 + z2) / 2\n"),
+    m("c19-newell-g-arcsinh-arg", ["C19"], T, "np.divide(x, np.sqrt(y2 + z2), out=np.zeros_like(x), where=(y2 + z2) != 0)", "np.divide(x, np.sqrt(y2 + x2), out=np.zeros_like(x), where=(y2 + z2) != 0)"),
+    m("c19-N-off-diagonal-uses-f", ["C19"], T, "_N_element(x, z, y, (dx, dz, dy), _g),  # Nxz", "_N_element(x, z, y, (dx, dz, dy), _f),  # Nxz"),
     # pre-repair forms of AF21 / AF22
     m("c02-line-points-rank1", ["C02"], LN, "points = np.array(points).reshape((len(points), -1))", "points = np.array(points)"),
     m("c02-line-points-one-row", ["C02"], LN, "points = np.array(points).reshape((len(points), -1))", "points = np.array(points).reshape((1, -1))"),
